@@ -608,7 +608,13 @@ func init() {
 		return vBool(true)
 	})
 
-	reg("github.com/cloudwego/thriftgo/generator/golang/extension/meta.RegisterStruct", noop)
+	// the reflection registry of the meta package: a no-op unless the check asks for the real one
+	reg("github.com/cloudwego/thriftgo/generator/golang/extension/meta.RegisterStruct", func(e *Engine, fr *frame, args []V) V {
+		if e.cfg.RealMeta {
+			return e.callSSANoIntrinsic(fr, "github.com/cloudwego/thriftgo/generator/golang/extension/meta.RegisterStruct", args)
+		}
+		return V{}
+	})
 	// unsafe helpers of the libraries under analysis
 	s2b := func(e *Engine, fr *frame, args []V) V {
 		if isOpaqueStr(args[0]) {
